@@ -396,3 +396,73 @@ PROPS["C13"] = {
         plain_unit("replay", "^TestC13_Replay$", replay=True),
     ],
 }
+
+PROPS["C18"] = {
+    "level": "exploration",
+    "rule": ("engine D: one fresh leader per case under a virtual clock (hook H1), 2-4 client connections (30% text) plus "
+             "successor connections re-announcing a client id, each served by the real Server.handle over an in-memory "
+             "net.Conn; rapid draws per connection an optional INIT (client id pool of 2, plus the all-zero id), 0-5 "
+             "WILL_LOCK/WILL_UNLOCK registrations, LOCK/UNLOCK requests (Timeout 0-9 s, Expried 1-14 s, Count 0-2, Rcount 0-2, "
+             "1-3 keys, re-used LockIds) optionally delivered in one read, the way the connection ends (EOF, bad magic, bad "
+             "version, stream.Close(), both, a second party's Close() racing the EOF; optionally Close() once more) and "
+             "clock ticks, all interleaved. Oracle: (1) lock table after every step equals a reference run of the same case in "
+             "which wills are not registered and the watcher sends the same commands once, in registration order, when the "
+             "connection has ended; a close without wills and a repeated Close() change nothing; (2) no queued request "
+             "outlives its timeout, no hold its expiry; after unlocking everything and 24 s STATE reports 0/0/0, snapshot "
+             "empty, client table empty, every handler ended; (3) holds survive closes and clock seconds until their expiry; "
+             "(4) every frame a connection receives answers a request it sent or one of a dead connection with the same "
+             "client id; one reply per text command; a reply for a dead connection's request is delivered when a "
+             "connection is registered under its client id. Non-trivial: a connection with >= 1 registered will closed "
+             "while >= 1 of its requests was queued (asynchronous reply pending). Distinct = distinct FNV-64 "
+             "fingerprints of the step list."),
+    "assumptions": [
+        "only DbId 0, flags 0, second-granularity Timeout/Expried, no value operations (the known C13 crash inputs are out of the domain by construction)",
+        "a LockId is not re-used for a lock request while a request bearing it is queued on the key (engine A's assumption); will commands use fresh LockIds",
+        "a re-entrant request re-states the Expried of the original request: a shortened expiry is honoured one sweep late (wheel slot not moved) - lock-engine territory, not judged here",
+        "text connections process one command at a time; a command for a text connection that waits for a queued lock is skipped, and a close requested meanwhile (EOF, garbage, or any close of a connection with wills) is applied when its reply has arrived - only stream.Close() on a will-less text connection is applied while it waits",
+        "'dropped - or delivered to a reconnected client with the same id' is read as: delivered if a connection is registered under the id when the reply is produced (VERIF_C18_LENIENT=1 accepts a drop there as well); any live connection that announced the id counts (a proxy re-bound to an earlier successor keeps delivering there)",
+        "reference semantics of a will = the same LOCK/UNLOCK command sent by a live connection at the instant the dying connection's handler has finished",
+        "the real goroutines are serialised by the harness (it acts only when every handler is parked); proto-race is the only step with two goroutines racing and is judged on its end state only",
+    ],
+    "units": [
+        rapid_unit("D-C18", "^TestC18_Disconnect$", quick={"checks": 24000, "shards": 16, "timeout_s": 300},
+                   thorough={"checks": 480000, "shards": 16, "timeout_s": 1500}),
+        plain_unit("replay-C18", "^TestC18_Replay$", replay=True),
+    ],
+}
+
+PROPS["C11"] = {
+    "level": "exploration",
+    "rule": ("Layer 1 (single leader, harness clock, harness parks the append-file writers by owning Aof.aofGlock): rapid-generated "
+             "histories of ack-required LOCKs (fresh LockIds; fresh grants and grants out of the wait queue; Count 0..2; with SET/UNSET/"
+             "INCR/APPEND/SHIFT/PUSH/POP value operations on mixed types), ordinary locks, unlocks, competing lock/unlock requests for a "
+             "pending LockId, re-entrant requests, clock seconds, hold/release phases with the record file or the value file closed "
+             "under the writer, ack waits timed out while parked; buffer sizes 64/128/4096, 1..4 shards, 1..3 clients. Layer 2 (leader "
+             "+ 1..2 followers in one process behind a harness proxy, ack mode all/majority): follower ack frames stalled, then passed, "
+             "negated or dropped with a connection cut; leader demotion; timeouts. Oracle: SUCCED only when a LOCK record of that "
+             "key/LockId is in the leader's append files (read in the reply callback) and, cluster, the proxies have already forwarded "
+             "the required number of positive ack frames; while pending every request for the LockId gets LOCK_ACK_WAITING and changes "
+             "nothing (snapshot equal); reply-driven ledger == in-package snapshot at every stable point (acknowledged hold is a normal "
+             "hold, failed hold is gone); on write error / negative or lost ack / timeout / demotion the requester gets a non-SUCCED "
+             "terminal reply exactly once, the value equals the value before the request (failure reply + stored value), the head of the "
+             "queue is not admissible afterwards, no freed Lock object is reachable; followers end with the leader's holds. "
+             "Non-trivial: single - a failed ack after a value operation with a request queued behind it; cluster - an ack-required "
+             "request whose SUCCED needed >=1 follower frame. Distinct = FNV-64 of configuration + op list."),
+    "assumptions": [
+        "the harness owns the leader's clock (hook H1); ack waits time out only when the case ticks",
+        "a failed write is injected by closing the *os.File under AofFile (what a full disk / EIO looks like to Flush); the file is re-opened after quiescence",
+        "value undo is compared with the value observed before the request; when other value operations interleave on the key the check is skipped (counted), and a value that vanished because nothing holds or awaits the key any more is accepted",
+        "APPEND/SHIFT are only applied at once to non-array values (byte operations on arrays make malformed arrays: C15 domain)",
+        "a lock request for a LockId that is still queued is skipped (two holds of one LockId: C02 domain)",
+        "cluster: followers join before the workload, no reconnect after a cut, no log rotation (join/transfer races belong to C09); leader clock starts at the wall clock",
+        "cluster: the positive-frame requirement is computed from the followers still connected at reply time (lower bound of the registered count)",
+        "while listed findings are open: no re-entrant ack request, no never-persist flag, buffer 4096 when a write fault is drawn, value operations whose undo is inexact in the current state are replaced by SET, demotion is executed with the mutex released around updateState, a LOCKED_ERROR after the TIMEOUT of an ack wait is counted as known hit (all counted in evidence)",
+    ],
+    "units": [
+        rapid_unit("single", "^TestC11_SingleNode$", quick={"checks": 16000, "shards": 8, "timeout_s": 300, "shrinktime": "30s"},
+                   thorough={"checks": 200000, "shards": 8, "timeout_s": 1800, "shrinktime": "60s"}),
+        rapid_unit("cluster", "^TestC11_Cluster$", quick={"checks": 4000, "shards": 8, "timeout_s": 300, "shrinktime": "30s"},
+                   thorough={"checks": 48000, "shards": 8, "timeout_s": 1800, "shrinktime": "60s"}),
+        plain_unit("replay", "^TestC11_Replay$", replay=True),
+    ],
+}
